@@ -391,6 +391,15 @@ func (f *fakeTSA) runClient(cs *clientCase) {
 	}
 }
 
+// loadTimeout: the operation failed with a client-side timeout on an authority that does not hang by design —
+// the machine was too busy for openssl to answer in time; such a run says nothing about relic and is repeated.
+func loadTimeout(errText string, seq []string, hits []int) bool {
+	if !strings.Contains(errText, "Client.Timeout") && !strings.Contains(errText, "deadline exceeded") {
+		return false
+	}
+	return len(hits) > 0 && hits[len(hits)-1] < len(seq) && seq[hits[len(hits)-1]] != "hang"
+}
+
 // runClientOnce reports whether the run must be repeated because the fake authority itself was too slow
 func (f *fakeTSA) runClientOnce(cs *clientCase) (slow bool) {
 	encdig, _ := hex.DecodeString(cs.EncDig)
@@ -447,6 +456,9 @@ func (f *fakeTSA) runClientOnce(cs *clientCase) (slow bool) {
 	cs.ReqOK, cs.ReqNote = tc.reqOK, tc.reqNote
 	slow = tc.slow
 	tc.mu.Unlock()
+	if cs.Result == "err" && loadTimeout(cs.ErrText, cs.Seq, cs.Hits) {
+		slow = true
+	}
 	cs.Origin = -1
 	if cs.Result == "ok" {
 		cs.Origin = f.originOf(tok)
